@@ -23,3 +23,11 @@ Definition vclass (r : res xerr (list item)) : N := match r with Ok _ => 0%N | E
 (** 0 = resolves, 1 = two originals share a (kind, name) slot, 2 = an extension has no original *)
 Definition expected_class (its : list item) : N :=
   if negb (snodup (originals (idefs its))) then 1%N else if has_orphan (idefs its) then 2%N else 0%N.
+
+(** first insertion wins in general: the names are the first occurrences, in order *)
+Fixpoint dedup (seen l : list str) : list str :=
+  match l with
+  | [] => []
+  | x :: r => if existsb (str_eqb x) seen then dedup seen r else x :: dedup (seen ++ [x]) r
+  end.
+
